@@ -21,4 +21,226 @@ def util_ulen_decorators : List String := []
 /-- the signature of dataiter/util.py: ulen: parameters in order, with the source text of their defaults -/
 def util_ulen_signature : List String := ["string"]
 
+/-- dataiter/util.py: upad (sha256 of the function source: 1cad23c314dd92fd) -/
+def util_upad (truth : Term → Bool) : Out :=
+  let width' : Term := (Term.app "max" [(Term.app "GeneratorExp" [(Term.app "ulen" [(Term.sym "x")]), (Term.app "in" [(Term.sym "x"), (Term.sym "strings"), (Term.app "if" [])])])]);
+  let eff0 : Term := (Term.app "for" [(Term.sym "value"), (Term.sym "strings"), (Term.app "block" [(Term.app "assign" [(Term.sym "padding"), (Term.app "Mult" [(Term.sym "' '"), (Term.app "Sub" [width', (Term.app "ulen" [(Term.sym "value")])])])]), (Term.app "yield" [(Term.app "ifexp" [(Term.app "Eq" [(Term.sym "align"), (Term.sym "'right'")]), (Term.app "Add" [(Term.sym "padding"), (Term.sym "value")]), (Term.app "Add" [(Term.sym "value"), (Term.sym "padding")])])])])]);
+  let padding' : Term := (Term.app "value-after-loop" [(Term.sym "padding"), eff0]);
+  Out.fall [eff0]
+
+/-- the decorators of dataiter/util.py: upad, outermost first -/
+def util_upad_decorators : List String := ["deco.listify"]
+
+/-- the signature of dataiter/util.py: upad: parameters in order, with the source text of their defaults -/
+def util_upad_signature : List String := ["strings", "*", "align='right'"]
+
+/-- dataiter/util.py: utruncate (sha256 of the function source: a1a737991414518e) -/
+def util_utruncate (truth : Term → Bool) : Out :=
+  let eff0 : Term := (Term.app "for" [(Term.sym "i"), (Term.app "range" [(Term.int (1 : Int)), (Term.app "len" [(Term.sym "string")])]), (Term.app "block" [(Term.app "if" [(Term.app "Gt" [(Term.app "ulen" [(Term.app "getitem" [(Term.sym "string"), (Term.app "slice" [(Term.sym "None"), (Term.sym "i")])])]), (Term.sym "width")]), (Term.app "block" [(Term.app "return" [(Term.app "getitem" [(Term.sym "string"), (Term.app "slice" [(Term.sym "None"), (Term.app "Sub" [(Term.sym "i"), (Term.int (1 : Int))])])])])]), (Term.app "block" [])])])]);
+  Out.ret [eff0] (Term.sym "string")
+
+/-- the decorators of dataiter/util.py: utruncate, outermost first -/
+def util_utruncate_decorators : List String := []
+
+/-- the signature of dataiter/util.py: utruncate: parameters in order, with the source text of their defaults -/
+def util_utruncate_signature : List String := ["string", "width"]
+
+/-- dataiter/util.py: format_floats (sha256 of the function source: 541a2dd8cc450cd9) -/
+def util_format_floats (truth : Term → Bool) (ksep_is_None : Bool) : Out :=
+  let precision' : Term := (Term.sym "dataiter.PRINT_FLOAT_PRECISION");
+  if truth (Term.app "any" [(Term.app "GeneratorExp" [(Term.app "Or" [(Term.app "Lt/Lt" [(Term.int (0 : Int)), (Term.app "abs" [(Term.sym "x")]), (Term.app "Div" [(Term.int (1 : Int)), (Term.app "Pow" [(Term.int (10 : Int)), precision'])])]), (Term.app "Gt" [(Term.app "abs" [(Term.sym "x")]), (Term.app "Sub" [(Term.app "Pow" [(Term.int (10 : Int)), (Term.int (16 : Int))]), (Term.int (1 : Int))])])]), (Term.app "in" [(Term.sym "x"), (Term.sym "seq"), (Term.app "if" [])])])]) then
+    let f' : Term := (Term.sym "np.format_float_scientific");
+    Out.ret [] (Term.app "ListComp" [(Term.app "call" [f', (Term.sym "x"), (Term.app "=precision" [precision']), (Term.app "=trim" [(Term.sym "'-'")])]), (Term.app "in" [(Term.sym "x"), (Term.sym "seq"), (Term.app "if" [])])])
+  else
+    if ksep_is_None then
+      let ksep' : Term := (Term.sym "dataiter.PRINT_THOUSAND_SEPARATOR");
+      let digits' : Term := (Term.app "ListComp" [(Term.app "count_digits" [(Term.sym "x")]), (Term.app "in" [(Term.sym "x"), (Term.sym "seq"), (Term.app "if" [])])]);
+      let n' : Term := (Term.app "max" [(Term.app "GeneratorExp" [(Term.app "getitem" [(Term.sym "x"), (Term.int (0 : Int))]), (Term.app "in" [(Term.sym "x"), digits', (Term.app "if" [])])])]);
+      let m' : Term := (Term.app "max" [(Term.app "GeneratorExp" [(Term.app "getitem" [(Term.sym "x"), (Term.int (1 : Int))]), (Term.app "in" [(Term.sym "x"), digits', (Term.app "if" [])])])]);
+      let precision' : Term := (Term.app "min" [m', (Term.app "max" [(Term.int (0 : Int)), (Term.app "Sub" [precision', n'])])]);
+      Out.ret [] (Term.app "ListComp" [(Term.app ".replace" [(Term.app ".format" [(Term.app "fstring" [(Term.sym "'{:,.'"), (Term.app "format" [precision', (Term.sym ""), (Term.int (-1 : Int))]), (Term.sym "'f}'")]), (Term.sym "x")]), (Term.sym "','"), ksep']), (Term.app "in" [(Term.sym "x"), (Term.sym "seq"), (Term.app "if" [])])])
+    else
+      let digits' : Term := (Term.app "ListComp" [(Term.app "count_digits" [(Term.sym "x")]), (Term.app "in" [(Term.sym "x"), (Term.sym "seq"), (Term.app "if" [])])]);
+      let n' : Term := (Term.app "max" [(Term.app "GeneratorExp" [(Term.app "getitem" [(Term.sym "x"), (Term.int (0 : Int))]), (Term.app "in" [(Term.sym "x"), digits', (Term.app "if" [])])])]);
+      let m' : Term := (Term.app "max" [(Term.app "GeneratorExp" [(Term.app "getitem" [(Term.sym "x"), (Term.int (1 : Int))]), (Term.app "in" [(Term.sym "x"), digits', (Term.app "if" [])])])]);
+      let precision' : Term := (Term.app "min" [m', (Term.app "max" [(Term.int (0 : Int)), (Term.app "Sub" [precision', n'])])]);
+      Out.ret [] (Term.app "ListComp" [(Term.app ".replace" [(Term.app ".format" [(Term.app "fstring" [(Term.sym "'{:,.'"), (Term.app "format" [precision', (Term.sym ""), (Term.int (-1 : Int))]), (Term.sym "'f}'")]), (Term.sym "x")]), (Term.sym "','"), (Term.sym "ksep")]), (Term.app "in" [(Term.sym "x"), (Term.sym "seq"), (Term.app "if" [])])])
+
+/-- the decorators of dataiter/util.py: format_floats, outermost first -/
+def util_format_floats_decorators : List String := []
+
+/-- the signature of dataiter/util.py: format_floats: parameters in order, with the source text of their defaults -/
+def util_format_floats_signature : List String := ["seq", "ksep=None"]
+
+/-- dataiter/vector.py: Vector.to_strings (sha256 of the function source: 91940b4f3d66bd0d) -/
+def Vector_to_strings (truth : Term → Bool) (ksep_is_None : Bool) : Out :=
+  if truth (Term.app "Eq" [(Term.app ".length" [(Term.sym "self")]), (Term.int (0 : Int))]) then
+    Out.ret [] (Term.app ".fast" [(Term.app ".__class__" [(Term.sym "self")]), (Term.app "list" []), (Term.sym "str")])
+  else
+    let identity' : Term := (Term.app "lambda" [(Term.app "params" [(Term.sym "x")]), (Term.sym "x")]);
+    if ksep_is_None then
+      let ksep' : Term := (Term.sym "dataiter.PRINT_THOUSAND_SEPARATOR");
+      let quote' : Term := (if truth (Term.sym "quote") then (Term.sym "util.quote") else identity');
+      let pad' : Term := (if truth (Term.sym "pad") then (Term.sym "util.upad") else identity');
+      if truth (Term.app ".is_float" [(Term.sym "self")]) then
+        let strings' : Term := (Term.app "util.format_floats" [(Term.sym "self"), (Term.app "=ksep" [ksep'])]);
+        Out.ret [] (Term.app ".fast" [(Term.app ".__class__" [(Term.sym "self")]), (Term.app "call" [pad', strings']), (Term.sym "str")])
+      else
+        if (truth (Term.app ".is_integer" [(Term.sym "self")]) && (!truth (Term.app ".is_timedelta" [(Term.sym "self")]))) then
+          let strings' : Term := (Term.app "ListComp" [(Term.app ".replace" [(Term.app ".format" [(Term.sym "'{:,d}'"), (Term.sym "x")]), (Term.sym "','"), ksep']), (Term.app "in" [(Term.sym "x"), (Term.sym "self"), (Term.app "if" [])])]);
+          Out.ret [] (Term.app ".fast" [(Term.app ".__class__" [(Term.sym "self")]), (Term.app "call" [pad', strings']), (Term.sym "str")])
+        else
+          if truth (Term.app ".is_object" [(Term.sym "self")]) then
+            let strings' : Term := (Term.app "ListComp" [(Term.app "str" [(Term.sym "x")]), (Term.app "in" [(Term.sym "x"), (Term.sym "self"), (Term.app "if" [])])]);
+            let eff0 : Term := (Term.app "for" [(Term.sym "i"), (Term.app "range" [(Term.app "len" [strings'])]), (Term.app "block" [(Term.app "assign" [(Term.sym "lines"), (Term.app ".splitlines" [(Term.app "getitem" [strings', (Term.sym "i")])])]), (Term.app "if" [(Term.app "Or" [(Term.app "Gt" [(Term.app "util.ulen" [(Term.app "getitem" [strings', (Term.sym "i")])]), (Term.sym "truncate_width")]), (Term.app "And" [(Term.sym "lines"), (Term.app "NotEq" [(Term.app "getitem" [(Term.sym "lines"), (Term.int (0 : Int))]), (Term.app "getitem" [strings', (Term.sym "i")])]), (Term.app "Lt" [(Term.sym "truncate_width"), (Term.sym "inf")])])]), (Term.app "block" [(Term.app "store" [(Term.app "getitem" [strings', (Term.sym "i")]), (Term.app "Add" [(Term.app "util.utruncate" [(Term.app "getitem" [(Term.sym "lines"), (Term.int (0 : Int))]), (Term.app "Sub" [(Term.sym "truncate_width"), (Term.int (1 : Int))])]), (Term.sym "'…'")])])]), (Term.app "block" [])])])]);
+            let lines' : Term := (Term.app "value-after-loop" [(Term.sym "lines"), eff0]);
+            Out.ret [eff0] (Term.app ".fast" [(Term.app ".__class__" [(Term.sym "self")]), (Term.app "call" [pad', strings']), (Term.sym "str")])
+          else
+            if truth (Term.app ".is_string" [(Term.sym "self")]) then
+              let strings' : Term := (Term.app "ListComp" [(Term.app "call" [quote', (Term.sym "x")]), (Term.app "in" [(Term.sym "x"), (Term.sym "self"), (Term.app "if" [])])]);
+              let eff0 : Term := (Term.app "for" [(Term.sym "i"), (Term.app "range" [(Term.app "len" [strings'])]), (Term.app "block" [(Term.app "assign" [(Term.sym "lines"), (Term.app ".splitlines" [(Term.app "getitem" [strings', (Term.sym "i")])])]), (Term.app "if" [(Term.app "Or" [(Term.app "Gt" [(Term.app "util.ulen" [(Term.app "getitem" [strings', (Term.sym "i")])]), (Term.sym "truncate_width")]), (Term.app "And" [(Term.sym "lines"), (Term.app "NotEq" [(Term.app "getitem" [(Term.sym "lines"), (Term.int (0 : Int))]), (Term.app "getitem" [strings', (Term.sym "i")])]), (Term.app "Lt" [(Term.sym "truncate_width"), (Term.sym "inf")])])]), (Term.app "block" [(Term.app "store" [(Term.app "getitem" [strings', (Term.sym "i")]), (Term.app "Add" [(Term.app "util.utruncate" [(Term.app "getitem" [(Term.sym "lines"), (Term.int (0 : Int))]), (Term.app "Sub" [(Term.sym "truncate_width"), (Term.int (1 : Int))])]), (Term.sym "'…'")])])]), (Term.app "block" [])])])]);
+              let lines' : Term := (Term.app "value-after-loop" [(Term.sym "lines"), eff0]);
+              Out.ret [eff0] (Term.app ".fast" [(Term.app ".__class__" [(Term.sym "self")]), (Term.app "call" [pad', strings']), (Term.sym "str")])
+            else
+              let strings' : Term := (Term.app "ListComp" [(Term.app "str" [(Term.sym "x")]), (Term.app "in" [(Term.sym "x"), (Term.sym "self"), (Term.app "if" [])])]);
+              Out.ret [] (Term.app ".fast" [(Term.app ".__class__" [(Term.sym "self")]), (Term.app "call" [pad', strings']), (Term.sym "str")])
+    else
+      let quote' : Term := (if truth (Term.sym "quote") then (Term.sym "util.quote") else identity');
+      let pad' : Term := (if truth (Term.sym "pad") then (Term.sym "util.upad") else identity');
+      if truth (Term.app ".is_float" [(Term.sym "self")]) then
+        let strings' : Term := (Term.app "util.format_floats" [(Term.sym "self"), (Term.app "=ksep" [(Term.sym "ksep")])]);
+        Out.ret [] (Term.app ".fast" [(Term.app ".__class__" [(Term.sym "self")]), (Term.app "call" [pad', strings']), (Term.sym "str")])
+      else
+        if (truth (Term.app ".is_integer" [(Term.sym "self")]) && (!truth (Term.app ".is_timedelta" [(Term.sym "self")]))) then
+          let strings' : Term := (Term.app "ListComp" [(Term.app ".replace" [(Term.app ".format" [(Term.sym "'{:,d}'"), (Term.sym "x")]), (Term.sym "','"), (Term.sym "ksep")]), (Term.app "in" [(Term.sym "x"), (Term.sym "self"), (Term.app "if" [])])]);
+          Out.ret [] (Term.app ".fast" [(Term.app ".__class__" [(Term.sym "self")]), (Term.app "call" [pad', strings']), (Term.sym "str")])
+        else
+          if truth (Term.app ".is_object" [(Term.sym "self")]) then
+            let strings' : Term := (Term.app "ListComp" [(Term.app "str" [(Term.sym "x")]), (Term.app "in" [(Term.sym "x"), (Term.sym "self"), (Term.app "if" [])])]);
+            let eff0 : Term := (Term.app "for" [(Term.sym "i"), (Term.app "range" [(Term.app "len" [strings'])]), (Term.app "block" [(Term.app "assign" [(Term.sym "lines"), (Term.app ".splitlines" [(Term.app "getitem" [strings', (Term.sym "i")])])]), (Term.app "if" [(Term.app "Or" [(Term.app "Gt" [(Term.app "util.ulen" [(Term.app "getitem" [strings', (Term.sym "i")])]), (Term.sym "truncate_width")]), (Term.app "And" [(Term.sym "lines"), (Term.app "NotEq" [(Term.app "getitem" [(Term.sym "lines"), (Term.int (0 : Int))]), (Term.app "getitem" [strings', (Term.sym "i")])]), (Term.app "Lt" [(Term.sym "truncate_width"), (Term.sym "inf")])])]), (Term.app "block" [(Term.app "store" [(Term.app "getitem" [strings', (Term.sym "i")]), (Term.app "Add" [(Term.app "util.utruncate" [(Term.app "getitem" [(Term.sym "lines"), (Term.int (0 : Int))]), (Term.app "Sub" [(Term.sym "truncate_width"), (Term.int (1 : Int))])]), (Term.sym "'…'")])])]), (Term.app "block" [])])])]);
+            let lines' : Term := (Term.app "value-after-loop" [(Term.sym "lines"), eff0]);
+            Out.ret [eff0] (Term.app ".fast" [(Term.app ".__class__" [(Term.sym "self")]), (Term.app "call" [pad', strings']), (Term.sym "str")])
+          else
+            if truth (Term.app ".is_string" [(Term.sym "self")]) then
+              let strings' : Term := (Term.app "ListComp" [(Term.app "call" [quote', (Term.sym "x")]), (Term.app "in" [(Term.sym "x"), (Term.sym "self"), (Term.app "if" [])])]);
+              let eff0 : Term := (Term.app "for" [(Term.sym "i"), (Term.app "range" [(Term.app "len" [strings'])]), (Term.app "block" [(Term.app "assign" [(Term.sym "lines"), (Term.app ".splitlines" [(Term.app "getitem" [strings', (Term.sym "i")])])]), (Term.app "if" [(Term.app "Or" [(Term.app "Gt" [(Term.app "util.ulen" [(Term.app "getitem" [strings', (Term.sym "i")])]), (Term.sym "truncate_width")]), (Term.app "And" [(Term.sym "lines"), (Term.app "NotEq" [(Term.app "getitem" [(Term.sym "lines"), (Term.int (0 : Int))]), (Term.app "getitem" [strings', (Term.sym "i")])]), (Term.app "Lt" [(Term.sym "truncate_width"), (Term.sym "inf")])])]), (Term.app "block" [(Term.app "store" [(Term.app "getitem" [strings', (Term.sym "i")]), (Term.app "Add" [(Term.app "util.utruncate" [(Term.app "getitem" [(Term.sym "lines"), (Term.int (0 : Int))]), (Term.app "Sub" [(Term.sym "truncate_width"), (Term.int (1 : Int))])]), (Term.sym "'…'")])])]), (Term.app "block" [])])])]);
+              let lines' : Term := (Term.app "value-after-loop" [(Term.sym "lines"), eff0]);
+              Out.ret [eff0] (Term.app ".fast" [(Term.app ".__class__" [(Term.sym "self")]), (Term.app "call" [pad', strings']), (Term.sym "str")])
+            else
+              let strings' : Term := (Term.app "ListComp" [(Term.app "str" [(Term.sym "x")]), (Term.app "in" [(Term.sym "x"), (Term.sym "self"), (Term.app "if" [])])]);
+              Out.ret [] (Term.app ".fast" [(Term.app ".__class__" [(Term.sym "self")]), (Term.app "call" [pad', strings']), (Term.sym "str")])
+
+/-- the decorators of dataiter/vector.py: Vector.to_strings, outermost first -/
+def Vector_to_strings_decorators : List String := []
+
+/-- the signature of dataiter/vector.py: Vector.to_strings: parameters in order, with the source text of their defaults -/
+def Vector_to_strings_signature : List String := ["self", "*", "ksep=None", "quote=True", "pad=False", "truncate_width=inf"]
+
+/-- dataiter/vector.py: Vector.to_string (sha256 of the function source: 11df0cd140949f63) -/
+def Vector_to_string (truth : Term → Bool) (max_elements_is_None : Bool) : Out :=
+  let print_width' : Term := (Term.app "util.get_print_width" []);
+  let add_string_element' : Term := (Term.app "local-def" [(Term.app "def" [(Term.sym "add_string_element"), (Term.app "params" [(Term.sym "string"), (Term.sym "rows")]), (Term.app "block" [(Term.app "if" [(Term.app "LtE" [(Term.app "len" [(Term.app "getitem" [(Term.sym "rows"), (Term.int (-(1 : Int)))])]), (Term.int (1 : Int))]), (Term.app "block" [(Term.app "return" [(Term.app ".append" [(Term.app "getitem" [(Term.sym "rows"), (Term.int (-(1 : Int)))]), (Term.sym "string")])])]), (Term.app "block" [])]), (Term.app "assign" [(Term.sym "row"), (Term.app ".join" [(Term.sym "' '"), (Term.app "Add" [(Term.app "getitem" [(Term.sym "rows"), (Term.int (-(1 : Int)))]), (Term.app "list" [(Term.sym "string")])])])]), (Term.app "if" [(Term.app "Lt" [(Term.app "util.ulen" [(Term.sym "row")]), print_width']), (Term.app "block" [(Term.app "return" [(Term.app ".append" [(Term.app "getitem" [(Term.sym "rows"), (Term.int (-(1 : Int)))]), (Term.sym "string")])])]), (Term.app "block" [])]), (Term.app "return" [(Term.app ".append" [(Term.sym "rows"), (Term.app "list" [(Term.sym "' '"), (Term.sym "string")])])])])])]);
+  if max_elements_is_None then
+    let max_elements' : Term := (Term.sym "dataiter.PRINT_MAX_ELEMENTS");
+    let rows' : Term := (Term.app "list" [(Term.app "list" [(Term.sym "'['")])]);
+    let eff0 : Term := (Term.app "for" [(Term.sym "string"), (Term.app ".to_strings" [(Term.app "getitem" [(Term.sym "self"), (Term.app "slice" [(Term.sym "None"), max_elements'])]), (Term.app "=pad" [(Term.sym "True")])]), (Term.app "block" [(Term.app "call" [add_string_element', (Term.sym "string"), rows'])])]);
+    if truth (Term.app "Lt" [max_elements', (Term.app ".length" [(Term.sym "self")])]) then
+      let eff1 : Term := (Term.app "call" [add_string_element', (Term.sym "'...'"), rows']);
+      let eff2 : Term := (Term.app "call" [add_string_element', (Term.app "fstring" [(Term.sym "'] '"), (Term.app "format" [(Term.app ".dtype_label" [(Term.sym "self")]), (Term.sym ""), (Term.int (-1 : Int))])]), rows']);
+      if truth (Term.app "Eq" [(Term.app "len" [rows']), (Term.int (1 : Int))]) then
+        let eff3 : Term := (Term.app "store" [(Term.app "getitem" [rows', (Term.int (0 : Int))]), (Term.app "ListComp" [(Term.app ".strip" [(Term.sym "x")]), (Term.app "in" [(Term.sym "x"), (Term.app "getitem" [rows', (Term.int (0 : Int))]), (Term.app "if" [])])])]);
+        Out.ret [eff0, eff1, eff2, eff3] (Term.app ".join" [(Term.sym "'\\n'"), (Term.app "GeneratorExp" [(Term.app ".join" [(Term.sym "' '"), (Term.sym "x")]), (Term.app "in" [(Term.sym "x"), rows', (Term.app "if" [])])])])
+      else
+        Out.ret [eff0, eff1, eff2] (Term.app ".join" [(Term.sym "'\\n'"), (Term.app "GeneratorExp" [(Term.app ".join" [(Term.sym "' '"), (Term.sym "x")]), (Term.app "in" [(Term.sym "x"), rows', (Term.app "if" [])])])])
+    else
+      let eff1 : Term := (Term.app "call" [add_string_element', (Term.app "fstring" [(Term.sym "'] '"), (Term.app "format" [(Term.app ".dtype_label" [(Term.sym "self")]), (Term.sym ""), (Term.int (-1 : Int))])]), rows']);
+      if truth (Term.app "Eq" [(Term.app "len" [rows']), (Term.int (1 : Int))]) then
+        let eff2 : Term := (Term.app "store" [(Term.app "getitem" [rows', (Term.int (0 : Int))]), (Term.app "ListComp" [(Term.app ".strip" [(Term.sym "x")]), (Term.app "in" [(Term.sym "x"), (Term.app "getitem" [rows', (Term.int (0 : Int))]), (Term.app "if" [])])])]);
+        Out.ret [eff0, eff1, eff2] (Term.app ".join" [(Term.sym "'\\n'"), (Term.app "GeneratorExp" [(Term.app ".join" [(Term.sym "' '"), (Term.sym "x")]), (Term.app "in" [(Term.sym "x"), rows', (Term.app "if" [])])])])
+      else
+        Out.ret [eff0, eff1] (Term.app ".join" [(Term.sym "'\\n'"), (Term.app "GeneratorExp" [(Term.app ".join" [(Term.sym "' '"), (Term.sym "x")]), (Term.app "in" [(Term.sym "x"), rows', (Term.app "if" [])])])])
+  else
+    let rows' : Term := (Term.app "list" [(Term.app "list" [(Term.sym "'['")])]);
+    let eff0 : Term := (Term.app "for" [(Term.sym "string"), (Term.app ".to_strings" [(Term.app "getitem" [(Term.sym "self"), (Term.app "slice" [(Term.sym "None"), (Term.sym "max_elements")])]), (Term.app "=pad" [(Term.sym "True")])]), (Term.app "block" [(Term.app "call" [add_string_element', (Term.sym "string"), rows'])])]);
+    if truth (Term.app "Lt" [(Term.sym "max_elements"), (Term.app ".length" [(Term.sym "self")])]) then
+      let eff1 : Term := (Term.app "call" [add_string_element', (Term.sym "'...'"), rows']);
+      let eff2 : Term := (Term.app "call" [add_string_element', (Term.app "fstring" [(Term.sym "'] '"), (Term.app "format" [(Term.app ".dtype_label" [(Term.sym "self")]), (Term.sym ""), (Term.int (-1 : Int))])]), rows']);
+      if truth (Term.app "Eq" [(Term.app "len" [rows']), (Term.int (1 : Int))]) then
+        let eff3 : Term := (Term.app "store" [(Term.app "getitem" [rows', (Term.int (0 : Int))]), (Term.app "ListComp" [(Term.app ".strip" [(Term.sym "x")]), (Term.app "in" [(Term.sym "x"), (Term.app "getitem" [rows', (Term.int (0 : Int))]), (Term.app "if" [])])])]);
+        Out.ret [eff0, eff1, eff2, eff3] (Term.app ".join" [(Term.sym "'\\n'"), (Term.app "GeneratorExp" [(Term.app ".join" [(Term.sym "' '"), (Term.sym "x")]), (Term.app "in" [(Term.sym "x"), rows', (Term.app "if" [])])])])
+      else
+        Out.ret [eff0, eff1, eff2] (Term.app ".join" [(Term.sym "'\\n'"), (Term.app "GeneratorExp" [(Term.app ".join" [(Term.sym "' '"), (Term.sym "x")]), (Term.app "in" [(Term.sym "x"), rows', (Term.app "if" [])])])])
+    else
+      let eff1 : Term := (Term.app "call" [add_string_element', (Term.app "fstring" [(Term.sym "'] '"), (Term.app "format" [(Term.app ".dtype_label" [(Term.sym "self")]), (Term.sym ""), (Term.int (-1 : Int))])]), rows']);
+      if truth (Term.app "Eq" [(Term.app "len" [rows']), (Term.int (1 : Int))]) then
+        let eff2 : Term := (Term.app "store" [(Term.app "getitem" [rows', (Term.int (0 : Int))]), (Term.app "ListComp" [(Term.app ".strip" [(Term.sym "x")]), (Term.app "in" [(Term.sym "x"), (Term.app "getitem" [rows', (Term.int (0 : Int))]), (Term.app "if" [])])])]);
+        Out.ret [eff0, eff1, eff2] (Term.app ".join" [(Term.sym "'\\n'"), (Term.app "GeneratorExp" [(Term.app ".join" [(Term.sym "' '"), (Term.sym "x")]), (Term.app "in" [(Term.sym "x"), rows', (Term.app "if" [])])])])
+      else
+        Out.ret [eff0, eff1] (Term.app ".join" [(Term.sym "'\\n'"), (Term.app "GeneratorExp" [(Term.app ".join" [(Term.sym "' '"), (Term.sym "x")]), (Term.app "in" [(Term.sym "x"), rows', (Term.app "if" [])])])])
+
+/-- the decorators of dataiter/vector.py: Vector.to_string, outermost first -/
+def Vector_to_string_decorators : List String := []
+
+/-- the signature of dataiter/vector.py: Vector.to_string: parameters in order, with the source text of their defaults -/
+def Vector_to_string_signature : List String := ["self", "*", "max_elements=None"]
+
+/-- dataiter/data_frame.py: DataFrame.to_string (sha256 of the function source: a45e730483bef674) -/
+def DataFrame_to_string (truth : Term → Bool) : Out :=
+  if (!truth (Term.sym "self")) then
+    Out.ret [] (Term.sym "''")
+  else
+    let max_rows' : Term := (Term.app "Or" [(Term.sym "max_rows"), (Term.sym "dataiter.PRINT_MAX_ROWS")]);
+    let max_width' : Term := (Term.app "Or" [(Term.sym "max_width"), (Term.app "util.get_print_width" [])]);
+    let truncate_width' : Term := (Term.app "Or" [(Term.sym "truncate_width"), (Term.sym "dataiter.PRINT_TRUNCATE_WIDTH")]);
+    let n' : Term := (Term.app "min" [(Term.app ".nrow" [(Term.sym "self")]), max_rows']);
+    let columns' : Term := (Term.app "DictComp" [(Term.app "pair" [(Term.sym "colname"), (Term.app "util.upad" [(Term.app "Add" [(Term.app "Add" [(Term.app "list" [(Term.sym "colname")]), (Term.app "list" [(Term.app "str" [(Term.app ".dtype_label" [(Term.sym "column")])])])]), (Term.app "ListComp" [(Term.app "str" [(Term.sym "x")]), (Term.app "in" [(Term.sym "x"), (Term.app ".to_strings" [(Term.app "getitem" [(Term.sym "column"), (Term.app "slice" [(Term.sym "None"), n'])]), (Term.app "=quote" [(Term.sym "False")]), (Term.app "=pad" [(Term.sym "True")]), (Term.app "=truncate_width" [truncate_width'])]), (Term.app "if" [])])])])])]), (Term.app "in" [(Term.app "tuple" [(Term.sym "colname"), (Term.sym "column")]), (Term.app ".items" [(Term.sym "self")]), (Term.app "if" [])])]);
+    let eff0 : Term := (Term.app "for" [(Term.sym "column"), (Term.app ".values" [columns']), (Term.app "block" [(Term.app ".insert" [(Term.sym "column"), (Term.int (2 : Int)), (Term.app "Mult" [(Term.sym "'─'"), (Term.app "util.ulen" [(Term.app "getitem" [(Term.sym "column"), (Term.int (0 : Int))])])])])])]);
+    let row_numbers' : Term := (Term.app "ListComp" [(Term.app "str" [(Term.sym "i")]), (Term.app "in" [(Term.sym "i"), (Term.app "range" [n']), (Term.app "if" [])])]);
+    let row_numbers' : Term := (Term.app "util.upad" [(Term.app "Add" [(Term.app "list" [(Term.sym "''"), (Term.sym "''"), (Term.sym "''")]), row_numbers'])]);
+    let rows_to_print' : Term := (Term.app "list" []);
+    let eff1 : Term := (Term.app "stmt" [(Term.app "while" [columns', (Term.app "block" [(Term.app "assign" [(Term.sym "first"), (Term.app "next" [(Term.app "iter" [(Term.app ".keys" [columns'])])])]), (Term.app "assign" [(Term.sym "batch_rows"), (Term.app "ListComp" [(Term.app ".join" [(Term.sym "' '"), (Term.sym "x")]), (Term.app "in" [(Term.sym "x"), (Term.app "zip" [row_numbers', (Term.app ".pop" [columns', (Term.sym "first")])]), (Term.app "if" [])])])]), (Term.app "for" [(Term.app "tuple" [(Term.sym "colname"), (Term.sym "column")]), (Term.app "list()" [(Term.app ".items" [columns'])]), (Term.app "block" [(Term.app "assign" [(Term.sym "width"), (Term.app "Add" [(Term.app "util.ulen" [(Term.app "Add" [(Term.app "getitem" [(Term.sym "batch_rows"), (Term.int (0 : Int))]), (Term.app "getitem" [(Term.sym "column"), (Term.int (0 : Int))])])]), (Term.int (1 : Int))])]), (Term.app "if" [(Term.app "Gt" [(Term.sym "width"), max_width']), (Term.app "block" [(Term.sym "break")]), (Term.app "block" [])]), (Term.app "for" [(Term.sym "i"), (Term.app "range" [(Term.app "len" [(Term.sym "column")])]), (Term.app "block" [(Term.app "store" [(Term.app "getitem" [(Term.sym "batch_rows"), (Term.sym "i")]), (Term.app "Add=" [(Term.app "getitem" [(Term.sym "batch_rows"), (Term.sym "i")]), (Term.sym "' '")])]), (Term.app "store" [(Term.app "getitem" [(Term.sym "batch_rows"), (Term.sym "i")]), (Term.app "Add=" [(Term.app "getitem" [(Term.sym "batch_rows"), (Term.sym "i")]), (Term.app "getitem" [(Term.sym "column"), (Term.sym "i")])])])])]), (Term.app "del" [(Term.app "getitem" [columns', (Term.sym "colname")])])])]), (Term.app ".append" [rows_to_print', (Term.app "ifexp" [rows_to_print', (Term.sym "''"), (Term.sym "'.'")])]), (Term.app "assign" [(Term.sym "rows_to_print"), (Term.app "Add=" [rows_to_print', (Term.sym "batch_rows")])])])])]);
+    let first' : Term := (Term.app "value-after-loop" [(Term.sym "first"), eff1]);
+    let batch_rows' : Term := (Term.app "value-after-loop" [(Term.sym "batch_rows"), eff1]);
+    let colname' : Term := (Term.app "value-after-loop" [(Term.sym "colname"), eff1]);
+    let column' : Term := (Term.app "value-after-loop" [(Term.sym "column"), eff1]);
+    let rows_to_print' : Term := (Term.app "value-after-loop" [(Term.sym "rows_to_print"), eff1]);
+    let width' : Term := (Term.app "value-after-loop" [(Term.sym "width"), eff1]);
+    let i' : Term := (Term.app "value-after-loop" [(Term.sym "i"), eff1]);
+    let eff2 : Term := (Term.app ".append" [rows_to_print', (Term.sym "'.'")]);
+    if truth (Term.app "Lt" [max_rows', (Term.app ".nrow" [(Term.sym "self")])]) then
+      let eff3 : Term := (Term.app ".append" [rows_to_print', (Term.app "fstring" [(Term.sym "'... '"), (Term.app "format" [(Term.app ".nrow" [(Term.sym "self")]), (Term.sym ""), (Term.int (-1 : Int))]), (Term.sym "' rows total'")])]);
+      Out.ret [eff0, eff1, eff2, eff3] (Term.app ".join" [(Term.sym "'\\n'"), rows_to_print'])
+    else
+      Out.ret [eff0, eff1, eff2] (Term.app ".join" [(Term.sym "'\\n'"), rows_to_print'])
+
+/-- the decorators of dataiter/data_frame.py: DataFrame.to_string, outermost first -/
+def DataFrame_to_string_decorators : List String := []
+
+/-- the signature of dataiter/data_frame.py: DataFrame.to_string: parameters in order, with the source text of their defaults -/
+def DataFrame_to_string_signature : List String := ["self", "*", "max_rows=None", "max_width=None", "truncate_width=None"]
+
+/-- dataiter/list_of_dicts.py: ListOfDicts.to_string (sha256 of the function source: 663c6277011aea63) -/
+def ListOfDicts_to_string (truth : Term → Bool) (max_items_is_None : Bool) : Out :=
+  if max_items_is_None then
+    let max_items' : Term := (Term.sym "dataiter.PRINT_MAX_ITEMS");
+    let string' : Term := (Term.app ".to_json" [(Term.app ".head" [(Term.sym "self"), max_items'])]);
+    if truth (Term.app "Lt" [max_items', (Term.app "len" [(Term.sym "self")])]) then
+      let string' : Term := (Term.app "Add=" [string', (Term.app "fstring" [(Term.sym "' ... '"), (Term.app "format" [(Term.app "len" [(Term.sym "self")]), (Term.sym ""), (Term.int (-1 : Int))]), (Term.sym "' items total'")])]);
+      Out.ret [] string'
+    else
+      Out.ret [] string'
+  else
+    let string' : Term := (Term.app ".to_json" [(Term.app ".head" [(Term.sym "self"), (Term.sym "max_items")])]);
+    if truth (Term.app "Lt" [(Term.sym "max_items"), (Term.app "len" [(Term.sym "self")])]) then
+      let string' : Term := (Term.app "Add=" [string', (Term.app "fstring" [(Term.sym "' ... '"), (Term.app "format" [(Term.app "len" [(Term.sym "self")]), (Term.sym ""), (Term.int (-1 : Int))]), (Term.sym "' items total'")])]);
+      Out.ret [] string'
+    else
+      Out.ret [] string'
+
+/-- the decorators of dataiter/list_of_dicts.py: ListOfDicts.to_string, outermost first -/
+def ListOfDicts_to_string_decorators : List String := []
+
+/-- the signature of dataiter/list_of_dicts.py: ListOfDicts.to_string: parameters in order, with the source text of their defaults -/
+def ListOfDicts_to_string_signature : List String := ["self", "*", "max_items=None"]
+
 end DI.Gen
